@@ -78,7 +78,7 @@ claim("C13",
       "Outside: dictionary-assisted round trips (matches into the dictionary), deflateSetDictionary's hash insertion over >= 512 positions, "
       "dictionaries >= window size on the deflate side.")
 claim("C14",
-      'Bounded: reset == fresh for deflate (every scalar field, head[] cleared incl. a symbolic dirty entry, pending discarded, trees re-initialised, block_open) and inflate (reset_with_config from an arbitrary state vs a freshly constructed state, for every i32 windowBits); a new gzip member after an abandoned one starts its header fields from their first byte; a string field of the gzip header is captured from offset 0 whatever length an earlier use left behind; failed copies leave the destination without a state; the copy kernels (Pending::clone_to, SymBuf::clone_to, inflate Window::clone_to) reproduce contents and cursors.',
+      'Bounded: reset == fresh for deflate (every scalar field, head[] cleared incl. a symbolic dirty entry, pending discarded, trees re-initialised, block_open) and inflate (reset_with_config from an arbitrary state vs a freshly constructed state, for every i32 windowBits); a new gzip member after an abandoned one starts its header fields from their first byte; a string field of the gzip header is captured from offset 0 whatever length an earlier use left behind; failed copies leave the destination without a state; inflateCopy refuses (StreamError, nothing allocated or freed) a stream that borrows the window of its caller, i.e. one made by inflateBackInit; the copy kernels (Pending::clone_to, SymBuf::clone_to, inflate Window::clone_to) reproduce contents and cursors.',
       "Outside: the success path of deflateCopy/inflateCopy as a whole (State is written into a u8 allocation: not encodable, DESIGN.md §1): 'copied streams behave identically and independently' is decided only kernel by kernel.")
 claim("C15",
       "Bounded: inflate(): next/avail/total deltas equal bytes moved for every (avail_in, avail_out, flush) around a stored block, no "
